@@ -1441,7 +1441,7 @@ fn flags_of_abandoned(cfg: &Cfg, ov: &BTreeMap<u64, Box<[u8; 512]>>) -> Result<(
     let r = guarded(|| match mount(dev2, cfg, &ctr2) {
         Ok(fs2) => {
             let r = fs2.read_status_flags().map(|f| (f.dirty(), f.io_error())).map_err(ek);
-            std::mem::forget(fs2);
+            drop(fs2); // (a throw-away copy of the image: destructor writes are harmless, forgetting would leak it)
             r
         }
         Err(e) => Err(ek(e)),
@@ -1638,7 +1638,7 @@ fn final_suffix(fs: Fs, cx: &mut RunCtx) {
         let r = guarded(|| match mount(dev2, cfg, &ctr2) {
             Ok(fs2) => {
                 let r = fs2.read_status_flags().map(|f| (f.dirty(), f.io_error())).map_err(ek);
-                std::mem::forget(fs2);
+                drop(fs2); // (a throw-away copy of the image: destructor writes are harmless, forgetting would leak it)
                 r
             }
             Err(e) => Err(ek(e)),
